@@ -20,11 +20,11 @@ SIM_TECH = "deterministic simulation: seeded trace generation (one PRNG from VER
 
 CHECKS = {
  "C01": ("exploration",
-         "Seeded search over producer modules pushed through a legally REORDERING medium (module-level instructions moved anywhere incl. into blocks, sections permuted, parameters moved behind blocks, string padding and spare version bytes randomised), then real load -> real assemble -> real load; conservation / exactly-once / stable-order oracle word for word against an independent reference encoder and the bracket automaton's layout sort. Also injects storage faults the loader should reject (string bytes made invalid UTF-8, undeclared enumerant words, stray structural instructions): if the loader accepts such an input anyway, frame-level conservation (same words, none dropped or invented) is still demanded. Rare scale lanes (0xFFFF-word instructions, 65k+/262k-byte strings, 66k tracked ids), boundary ids and header values. Sampling over ~2e5 modules per quick run; all opcodes whose layout class the statement fixes are exercised. For inputs the loader accepts although the reference rejects them, relative order inside every output section, parameter list and function is demanded as well. Further hot spots: stray OpLine + body instruction outside blocks, declarations moved into a block behind an OpLine, registered extension names, boundary header bounds, linkage decorations on function ids, merge instructions naming the next label, dense ids across 2^k boundaries.",
+         "Seeded search over producer modules pushed through a legally REORDERING medium (module-level instructions moved anywhere incl. into blocks, sections permuted, parameters moved behind blocks, string padding and spare version bytes randomised), then real load -> real assemble -> real load; conservation / exactly-once / stable-order oracle word for word against an independent reference encoder and the bracket automaton's layout sort. Also injects storage faults the loader should reject (string bytes made invalid UTF-8, undeclared enumerant words, stray structural instructions): if the loader accepts such an input anyway, frame-level conservation (same words, none dropped or invented) is still demanded. Rare scale lanes (0xFFFF-word instructions, 65k+/262k-byte strings, 66k tracked ids), boundary ids and header values. Sampling over 3e5 modules per quick run; all opcodes whose layout class the statement fixes are exercised. For inputs the loader accepts although the reference rejects them, relative order inside every output section, parameter list and function is demanded as well. Further hot spots: stray OpLine + body instruction outside blocks, declarations moved into a block behind an OpLine, registered extension names, boundary header bounds, linkage decorations on function ids, merge instructions naming the next label, dense ids across 2^k boundaries.",
          "Trusts the reference encoder, the reference acceptor (its reading of the input bytes defines 'the input's instructions'), the hand-transcribed layout table (DESIGN §3.4) and the frozen grammar snapshot. Conditional on acceptance: a module the real loader rejects is skipped (C05 reports that).",
          SIM_TECH + "; faults = legal message reordering / padding corruption", "§5 C01"),
  "C03": ("fault_enumeration",
-         "Seeded producer modules over all 787 opcodes through 0-3 storage faults (truncation, bit flips, word/word-count/opcode/enumerant substitution, operand loss/insertion, unterminated strings, message loss/dup/reorder, garbage), judged against a table-driven reference acceptor run on the post-fault bytes: acceptance, delivered prefix, error class, instruction number, offset extent. One run in 25 ENUMERATES every truncation offset and every word-count/operand-drop/operand-extra variant of one instruction (the property's own quantifier). The rendered one-line message must name the same instruction number and offset as the error value. Hot spots: boundary ids (0, 2^31, u32::MAX), BOM / LF / invalid-UTF-8 strings, the magic number inside the stream, rare giant instructions/strings/type tables. Opcode faults 0 / last+1 / +-1 around declared opcodes, surplus payload on operand-less instructions, zero padding behind the module, dense 64-bit-typed ids with a consumer at every 2^k-1, 2^k, 2^k+1, header dictionaries (generator tool ids, version 0.99).",
+         "Seeded producer modules over all 787 opcodes through 0-3 storage faults (truncation, bit flips, word/word-count/opcode/enumerant substitution, operand loss/insertion, unterminated strings, message loss/dup/reorder, garbage), judged against a table-driven reference acceptor run on the post-fault bytes: acceptance, delivered prefix, error class, instruction number, offset extent. One run in 25 ENUMERATES every truncation offset and every word-count/operand-drop/operand-extra variant of one instruction (the property's own quantifier). The rendered one-line message must name the same instruction number and offset as the error value. Hot spots: boundary ids (0, 2^31, u32::MAX), BOM / LF / invalid-UTF-8 strings, the magic number inside the stream, rare giant instructions/strings/type tables. Opcode faults 0 / last+1 / +-1 around declared opcodes, surplus payload on operand-less instructions, zero padding behind the module, dense 64-bit-typed ids with a consumer at every 2^k-1, 2^k, 2^k+1, header dictionaries (generator tool ids, version 0.99). One run in five applies one surplus word and one missing last word to EVERY instruction of the stream (light sweep); every byte order of the magic number.",
          "Grammar = frozen snapshot of the pinned tree (Khronos JSON is not available offline); documented don't-cares (trailing 1-3 byte fragment, OpSpecConstantOp nesting optional/variadic operands, poisoned ids); an extent clipped by EOF may be reported as missing or surplus.",
          SIM_TECH + "; single-fault positions enumerated per seeded workload", "§5 C03"),
  "C04": ("fault_enumeration",
@@ -40,7 +40,7 @@ CHECKS = {
          "Method<->opcode binding is by name (heck snake_case) plus a table for hand-written methods; arguments are kept grammar-conforming by construction (see evidence assumptions); 10 known findings (known_findings.json) are reported as KNOWN-FINDING lines.",
          SIM_TECH + "; refinement of recorded intent", "§5 C06"),
  "C10": ("exploration",
-         "Seeded histories of int/float declarations (supported and unsupported widths), value definitions carrying types through result types, and OpConstant/OpSpecConstant/OpSwitch consumers on declared/undeclared/forward-declared ids, judged against a reference type context; each history is also parsed under a schedule involving a conflicting second binary: after it, NESTED inside its k-th consumer callback (re-entrancy), it nested inside the history's parse, one consumer reused - results must equal the stand-alone parse; assembler word counts re-checked. Float declarations with the optional encoding operand, literals of all 363 distinct int/float types, 65k+ tracked ids before a 64-bit value / literal / switch. Value definitions by any value-defining opcode of the grammar with id operands from the history's typed ids; bystander instructions of any other kind in between (capabilities, extensions, functions, labels, ...); dense ids up to 66 000, all typed 64-bit, with a consumer at every 2^k-1, 2^k, 2^k+1.",
+         "Seeded histories of int/float declarations (supported and unsupported widths), value definitions carrying types through result types, and OpConstant/OpSpecConstant/OpSwitch consumers on declared/undeclared/forward-declared ids, judged against a reference type context; each history is also parsed under a schedule involving a conflicting second binary: after it, NESTED inside its k-th consumer callback (re-entrancy), it nested inside the history's parse, one consumer reused - results must equal the stand-alone parse; assembler word counts re-checked. Float declarations with the optional encoding operand, literals of all 363 distinct int/float types, 65k+ tracked ids before a 64-bit value / literal / switch. Value definitions by any value-defining opcode of the grammar with id operands from the history's typed ids; bystander instructions of any other kind in between (capabilities, extensions, functions, labels, ...); dense ids up to 66 000, all typed 64-bit, with a consumer at every 2^k-1, 2^k, 2^k+1. Ids defined by other instructions and near-miss ids (one bit away from a typed id) as result types and selectors; header bounds 0 / 1 / too small; annotations in front aimed at ids defined later.",
          "Ids are defined once in the history under test; literal-truncation faults only.",
          SIM_TECH + "; schedules = order / nesting of two parses through the Consumer seam", "§5 C10"),
  "C11": ("exploration",
@@ -56,15 +56,15 @@ CHECKS = {
          "Number of ids burnt by failed calls is not modelled (only monotonicity and the exact final bound).",
          SIM_TECH + "; monotone-id / bound / dedup model", "§5 C13"),
  "C14": ("fault_enumeration",
-         "Per seeded binary (clean or with 1-2 storage faults) the scripted consumer's answer is ENUMERATED over every callback position k in {initialize, header, each instruction, finalize, one past} x {Stop, Error(unique tag)}, plus random multi-deviation scripts and the real Loader wrapped in a logging consumer; the callback log and the returned ParseState are checked against the protocol automaton, the all-Continue baseline, the reference acceptor (Ok + finalize only for binaries the reference does not reject) and the parse_words entry point; consumer errors of several concrete types (incl. ParseState and dr::Error) must come back unchanged. Twelve standard-library error values (io::Error of kind Interrupted / WouldBlock / UnexpectedEof / ..., fmt::Error, Utf8Error, boxed strings) are swept over every callback position too; header dictionaries (generator tool ids, version 0.99); multi-word OpNop.",
+         "Per seeded binary (clean or with 1-2 storage faults) the scripted consumer's answer is ENUMERATED over every callback position k in {initialize, header, each instruction, finalize, one past} x {Stop, Error(unique tag)}, plus random multi-deviation scripts and the real Loader wrapped in a logging consumer; the callback log and the returned ParseState are checked against the protocol automaton, the all-Continue baseline, the reference acceptor (Ok + finalize only for binaries the reference does not reject) and the parse_words entry point; consumer errors of several concrete types (incl. ParseState and dr::Error) must come back unchanged. Twelve standard-library error values (io::Error of kind Interrupted / WouldBlock / UnexpectedEof / ..., fmt::Error, Utf8Error, boxed strings) are swept over every callback position too; header dictionaries (generator tool ids, version 0.99); multi-word OpNop. One clean binary in three is additionally parsed cut at every word boundary (Ok + finalize only if the cut falls between instructions).",
          "A binary on which the all-Continue parse panics is C04's finding and skipped; acceptance itself is C03's question.",
          SIM_TECH + "; cancellation injected at every callback position", "§5 C14"),
  "C20": ("fault_enumeration",
-         "The REAL rspirv-dis executable (built from /repo's working tree by ./check) is executed on real files: empty, random bytes, random words behind a valid header, producer modules clean or with 1-3 storage faults; a share of the runs executes it under strace with EINTR injected into the 1st or 2nd read(2) of the input file - both read calls the program issues - so the syscall-level fault positions are enumerated; a share feeds the bytes through a pipe (/dev/stdin, 4 KiB pieces) instead of a regular file; rare files beyond 16 MiB; exit status, signal, stderr and byte-exact stdout are compared with the library result computed in process, and a loading error must be one line. Foreign bytes around the content (the tool's own textual output, a BOM, other magics in front; LF / CRLF runs, NULs, Ctrl-Z behind).",
+         "The REAL rspirv-dis executable (built from /repo's working tree by ./check) is executed on real files: empty, random bytes, random words behind a valid header, producer modules clean or with 1-3 storage faults; a share of the runs executes it under strace with EINTR injected into the 1st or 2nd read(2) of the input file - both read calls the program issues - so the syscall-level fault positions are enumerated; a share feeds the bytes through a pipe (/dev/stdin, 4 KiB pieces) instead of a regular file; rare files beyond 16 MiB; exit status, signal, stderr and byte-exact stdout are compared with the library result computed in process, and a loading error must be one line. Foreign bytes around the content (the tool's own textual output, a BOM, other magics in front; LF / CRLF runs, NULs, Ctrl-Z behind). Files around 64 KiB / 1 MiB / 16 MiB with six header variants, ending cleanly or in an error; disassemblies of round line counts.",
          "Expected stdout comes from the same /repo library (load_bytes + Disassemble / Display); strace availability is probed per run and skipped runs are counted; only single-shot EINTR injection.",
          SIM_TECH + "; process-level simulation with syscall fault injection (strace) - the only lane with real I/O", "§5 C20"),
  "C19": ("exploration",
-         "Seeded search over append / fetch_or_append / lookup histories on sr::Storage with adversarial equality relations (NaN-like, non-transitive) and an equality that unwinds mid-scan as the injected fault, refined step by step against a Vec model with a token-stability invariant after every step. Element types: data-carrying struct, two-variant enum, zero-sized, 136-byte; relations incl. irreflexive equals-others-of-its-class and a `ne` inconsistent with `eq`; storages pre-filled with 3e3..1.1e6 values. Element types of 65 600 bytes and 1 MiB + 16.",
+         "Seeded search over append / fetch_or_append / lookup histories on sr::Storage with adversarial equality relations (NaN-like, non-transitive) and an equality that unwinds mid-scan as the injected fault, refined step by step against a Vec model with a token-stability invariant after every step. Element types: data-carrying struct, two-variant enum, zero-sized, 136-byte; relations incl. irreflexive equals-others-of-its-class and a `ne` inconsistent with `eq`; storages pre-filled with 3e3..1.1e6 values. Element types of 65 600 bytes and 1 MiB + 16. and 4 MiB + 8; storages built through Default / mem::take; pre-fills through fetch_or_append; fetch targets at the edges of power-of-two look-back windows.",
          "Trusts the Vec reference model; equality relations are symmetric by construction; after an unwinding comparison only the weak post-condition is demanded.",
          SIM_TECH, "§5 C19"),
 }
